@@ -11,13 +11,13 @@ package main
 // and evaluates in Go the oracle "optimizer on = optimizer off".
 
 import (
-	"path/filepath"
 	"encoding/json"
 	"fmt"
 	"io"
 	"log"
 	"math"
 	"os"
+	"path/filepath"
 	"sort"
 	"strings"
 	"syscall"
@@ -350,15 +350,15 @@ func c01HumanValue(t *Tree) any {
 }
 
 type c01Run struct {
-	tw      *CaseWriter // text-to-ast condition: tokens + the parser's AST (nil: not checked)
-	tokMax  int         // token budget per program for the text-to-ast condition
-	tokEvery int        // quick tier: every tokEvery-th program is checked (the corpus always)
-	sum     *Summary
-	cw      *CaseWriter
-	texts   map[string]bool
-	okProg  int
-	errOuts int
-	allOut  int
+	tw       *CaseWriter // text-to-ast condition: tokens + the parser's AST (nil: not checked)
+	tokMax   int         // token budget per program for the text-to-ast condition
+	tokEvery int         // quick tier: every tokEvery-th program is checked (the corpus always)
+	sum      *Summary
+	cw       *CaseWriter
+	texts    map[string]bool
+	okProg   int
+	errOuts  int
+	allOut   int
 }
 
 func c01SignatureOf(p *pgProgram, optDiff bool, shapes map[string]bool) string {
@@ -503,12 +503,18 @@ func (r *c01Run) runCase(p *pgProgram, id int) {
 
 	// ---- Go-side oracle for template programs: the value computed natively by the harness
 	if p.Oracle != nil {
-		sum.Count("boosted_shapes", "lazy stage bound by let, further lets, consumed later: "+p.Oracle.Stage)
+		sigO := "lazy stage " + p.Oracle.Stage + " consumed after further lets"
+		if p.Oracle.Kind == "twice" {
+			sum.Count("boosted_shapes", "let-bound list from a lazy stage extended twice ("+p.Oracle.Mod+"): "+p.Oracle.Stage)
+			sigO = "let-bound list from " + p.Oracle.Stage + " extended twice by " + p.Oracle.Mod
+		} else {
+			sum.Count("boosted_shapes", "lazy stage bound by let, further lets, consumed later: "+p.Oracle.Stage)
+		}
 		for i, tu := range p.Tuples {
 			if exp, ok := p.Oracle.Expected(tu); ok && (off[i].Canon != exp || on[i].Canon != exp) {
 				sum.GoViolations = append(sum.GoViolations, GoViolation{CaseID: id,
-					What: "a lazy list stage created before further lets and consumed after them disturbs the locals (or computes a wrong list)",
-					Sig:  "lazy stage " + p.Oracle.Stage + " consumed after further lets", Human: human,
+					What: "a template program does not evaluate to the value the harness computes natively (locals disturbed / a let-bound list value changed)",
+					Sig:  sigO, Human: human,
 					Expected: exp, Observed: "optimizer off: " + off[i].Human + " / on: " + on[i].Human})
 				break
 			}
@@ -543,6 +549,17 @@ func c01LazyTuples() [][]*Tree {
 		return t
 	}
 	return [][]*Tree{c01Tup(li(1, 1, 2, 2, 3), c01Ti(100)), c01Tup(li(4, 0, 0, 7), c01Ti(-5)), c01Tup(li(2, 2), c01Ti(31))}
+}
+
+func c01TwiceTuples() [][]*Tree {
+	li := func(vs ...int) *Tree {
+		t := &Tree{Kind: "list", Repr: "eager"}
+		for _, v := range vs {
+			t.Items = append(t.Items, c01Ti(v))
+		}
+		return t
+	}
+	return [][]*Tree{c01Tup(li(1, 2, 3), c01Ti(100)), c01Tup(li(4, 1, 5, 7, 2, 9), c01Ti(7)), c01Tup(li(2, 3, 4, 5, 6, 7, 8), c01Ti(31))}
 }
 
 func c01Corpus() []*pgProgram {
@@ -604,6 +621,13 @@ func c01Corpus() []*pgProgram {
 		pgLazyLetProgram("iir", "sum", 2, 2, true, c01LazyTuples()),
 		pgLazyLetProgram("map", "sum", 1, 2, false, c01LazyTuples()),
 		pgLazyLetProgram("accept", "size", 1, 2, true, c01LazyTuples()),
+		// a let-bound list from a lazy stage extended twice: let l=a.map(x->x*2); let p=l.append(..); let q=l.append(..); [p,q,l]
+		pgTwiceProgram("map", "none", "append", 1, 2, c01TwiceTuples()),
+		pgTwiceProgram("accept", "size", "append", 1, 2, c01TwiceTuples()),
+		pgTwiceProgram("skip", "string", "append", 3, 2, c01TwiceTuples()),
+		pgTwiceProgram("plus", "index", "append", 1, 3, c01TwiceTuples()),
+		pgTwiceProgram("top", "none", "plus", 1, 2, c01TwiceTuples()),
+		pgTwiceProgram("map", "size", "closure", 2, 2, c01TwiceTuples()),
 		mk(pgNFunc("fac", []string{"n"}, pgNIf(pgNOp("<=", pgNId("n"), pgNInt(0)), pgNInt(1), pgNOp("*", pgNId("n"), pgNCall("closure", pgNId("fac"), pgNOp("-", pgNId("n"), pgNInt(1))))),
 			pgNCall("closure", pgNId("fac"), pgNOp("%", x(), pgNInt(6)))), ints),
 	}
